@@ -718,6 +718,7 @@ def install(full=True, root=None, pkg='taskchain'):
     # console output of task loggers is noise here; handlers themselves are left alone (C18 looks at them)
     taskchain.chain.Chain.log_handler.setLevel(logging.CRITICAL)
     logging.lastResort = logging.NullHandler()
+    logging.getLogger().addHandler(logging.NullHandler())      # keeps logging.warning() from calling basicConfig()
 
 
 def entered(prefixes=None):
